@@ -44,14 +44,16 @@ VARIABLES
     dpc,                                            \* dial goroutine: "none" | "spawned" | "dialing" | "done"
     health, inuse, uclosed,                         \* real conn below: health = "na" | "ok" | "stale" | "dead"
     tclosed, tm, conns, cl, nd,
+    ndmax,                                          \* number of dials available (= MaxDials; a trace states its own total)
+    flip,                                           \* trace validation only (see GetRX), constant in leg A
     spurious, hist
 
 callVars == <<pc, att, isNew, cur, ctxDone, res>>
 chistVars == <<writes, used, failOK, startedClosed, got>>
 lzVars == <<lz, lclosed, early, wg, hid, dpc>>
 uVars == <<health, inuse, uclosed>>
-tVars == <<tclosed, tm, conns, cl, nd>>
-vars == <<callVars, chistVars, lzVars, uVars, tVars, spurious, hist>>
+tVars == <<tclosed, tm, conns, cl, nd, ndmax>>
+vars == <<callVars, chistVars, lzVars, uVars, tVars, flip, spurious, hist>>
 
 H(e) == hist' = IF WithHist THEN Append(hist, e) ELSE hist
 NoH == UNCHANGED hist
@@ -65,7 +67,8 @@ Init ==
     /\ early = [x \in ConnIds |-> 0] /\ wg = [x \in ConnIds |-> 0] /\ hid = [x \in ConnIds |-> 0]
     /\ dpc = [x \in ConnIds |-> "none"]
     /\ health = [x \in ConnIds |-> "na"] /\ inuse = [x \in ConnIds |-> 0] /\ uclosed = [x \in ConnIds |-> FALSE]
-    /\ tclosed = FALSE /\ tm = "free" /\ conns = {} /\ cl = "idle" /\ nd = 0
+    /\ tclosed = FALSE /\ tm = "free" /\ conns = {} /\ cl = "idle" /\ nd = 0 /\ ndmax = MaxDials
+    /\ flip = [c \in Calls |-> {}]
     /\ spurious = FALSE /\ hist = <<>>
 
 UDead(x) == health[x] = "dead" \/ uclosed[x]
@@ -76,12 +79,22 @@ WgOK(x) == NoWgWait \/ wg[x] = 0
 CanReal(x) == lz[x] = "dialed" /\ ~UDead(x) /\ inuse[x] < ConnCap /\ WgOK(x)
 Blocked(x) == lz[x] = "dialed" /\ ~WgOK(x)
 
+\* getReservedExchanger scans the pool while other goroutines run: a connection that refused the scanning
+\* caller may have become usable by the time the scan ends.  GetRX is atomic in this spec; for recorded
+\* traces (~ExactScan) flip[c] collects the connections on which a capacity-freeing event (an exchange
+\* returned, a dial finished, any cancellation) was logged since c's own last logged event, i.e. possibly
+\* during c's scan; such a connection does not forbid dialling a new one.
+FlipAll(c0, xs) == flip' = IF ExactScan THEN flip
+                           ELSE [d \in Calls |-> IF d = c0 THEN {} ELSE flip[d] \cup xs]
+NoFlip == UNCHANGED flip
+
 Start(c) ==
     /\ pc[c] = "na" /\ pc' = [pc EXCEPT ![c] = "get"]
     /\ OrderedStart => \A d \in Calls : d < c => pc[d] # "na"
     /\ startedClosed' = [startedClosed EXCEPT ![c] = (cl = "done")]
     /\ H([a |-> "Start", c |-> c])
     /\ UNCHANGED <<att, isNew, cur, ctxDone, res, writes, used, failOK, got, lzVars, uVars, tVars, spurious>>
+    /\ FlipAll(c, {})
 
 FailNowOK(c) == isNew[c] \/ ctxDone[c] \/ tclosed \/ att[c] >= 2
 
@@ -92,9 +105,10 @@ GetRX(c) ==
     /\ \/ /\ tclosed /\ "accept_after_close" \notin Dev
           /\ pc' = [pc EXCEPT ![c] = "done"] /\ res' = [res EXCEPT ![c] = "tclosed"]
           /\ failOK' = [failOK EXCEPT ![c] = TRUE]
-          /\ UNCHANGED <<isNew, cur, lz, early, wg, dpc, inuse, conns, nd>>
+          /\ UNCHANGED <<isNew, cur, lz, early, wg, dpc, inuse, conns, nd, ndmax>>
        \/ /\ ~tclosed \/ "accept_after_close" \in Dev
-          /\ \E x \in conns : \E drop \in SUBSET {y \in conns : ReportsClosed(y)} :
+          /\ \E x \in conns : \E drop \in (IF ExactScan THEN SUBSET {y \in conns : ReportsClosed(y)}
+                                                        ELSE {{y \in conns : ReportsClosed(y)}}) :
                /\ CanEarly(x) \/ CanReal(x)
                /\ conns' = conns \ drop
                /\ cur' = [cur EXCEPT ![c] = x] /\ isNew' = [isNew EXCEPT ![c] = FALSE]
@@ -103,19 +117,20 @@ GetRX(c) ==
                          /\ pc' = [pc EXCEPT ![c] = "early"] /\ UNCHANGED inuse
                     ELSE /\ inuse' = [inuse EXCEPT ![x] = @ + 1]
                          /\ pc' = [pc EXCEPT ![c] = "ready"] /\ UNCHANGED <<early, wg>>
-          /\ UNCHANGED <<res, failOK, lz, dpc, nd>>
-       \/ /\ (~tclosed \/ "accept_after_close" \in Dev) /\ nd < MaxDials
-          /\ ExactScan => \A x \in conns : ~CanEarly(x) /\ ~CanReal(x) /\ ~Blocked(x)
+          /\ UNCHANGED <<res, failOK, lz, dpc, nd, ndmax>>
+       \/ /\ (~tclosed \/ "accept_after_close" \in Dev) /\ nd < ndmax
+          /\ \A x \in conns : (~CanEarly(x) /\ ~CanReal(x) /\ ~Blocked(x)) \/ (~ExactScan /\ x \in flip[c])
           /\ LET x == nd + 1 IN
                /\ nd' = x
-               /\ conns' = (conns \ {y \in conns : ReportsClosed(y) /\ ExactScan}) \cup {x}
+               /\ conns' = (conns \ {y \in conns : ReportsClosed(y)}) \cup {x}
                /\ lz' = [lz EXCEPT ![x] = "dialing"] /\ dpc' = [dpc EXCEPT ![x] = "spawned"]
                /\ early' = [early EXCEPT ![x] = 1] /\ wg' = [wg EXCEPT ![x] = 1]
                /\ cur' = [cur EXCEPT ![c] = x] /\ isNew' = [isNew EXCEPT ![c] = TRUE]
                /\ pc' = [pc EXCEPT ![c] = "early"]
           /\ UNCHANGED <<res, failOK, inuse>>
     /\ NoH
-    /\ UNCHANGED <<ctxDone, writes, used, startedClosed, lclosed, hid, health, uclosed, tclosed, tm, cl, spurious>>
+    /\ UNCHANGED <<ctxDone, writes, used, startedClosed, lclosed, hid, health, uclosed, tclosed, tm, cl, ndmax, spurious>>
+    /\ NoFlip
 
 \* early exchanger: dial finished
 EarlyWake(c) ==
@@ -136,6 +151,7 @@ EarlyWake(c) ==
                              /\ UNCHANGED inuse
     /\ NoH
     /\ UNCHANGED <<att, isNew, cur, ctxDone, chistVars, lz, lclosed, hid, dpc, health, uclosed, tVars>>
+    /\ NoFlip
 
 EarlyCtx(c) ==
     /\ pc[c] = "early" /\ ctxDone[c]
@@ -143,6 +159,7 @@ EarlyCtx(c) ==
     /\ pc' = [pc EXCEPT ![c] = "decide"] /\ res' = [res EXCEPT ![c] = "ctx"]
     /\ NoH
     /\ UNCHANGED <<att, isNew, cur, ctxDone, chistVars, lz, lclosed, hid, dpc, uVars, tVars, spurious>>
+    /\ NoFlip
 
 \* ExchangeReserved on the real connection: the query is written on exactly this connection
 ExchReq(c) ==
@@ -150,6 +167,7 @@ ExchReq(c) ==
     /\ writes' = [writes EXCEPT ![c] = @ + 1] /\ used' = [used EXCEPT ![c] = @ \cup {cur[c]}]
     /\ H([a |-> "ExchReq", x |-> hid[cur[c]], c |-> c])
     /\ UNCHANGED <<att, isNew, cur, ctxDone, res, failOK, startedClosed, got, lzVars, uVars, tVars, spurious>>
+    /\ NoFlip
 
 ExchOk(c) ==
     /\ pc[c] = "exch" /\ health[cur[c]] = "ok" /\ ~uclosed[cur[c]]
@@ -158,6 +176,7 @@ ExchOk(c) ==
     /\ pc' = [pc EXCEPT ![c] = "done"] /\ res' = [res EXCEPT ![c] = "ok"]
     /\ H([a |-> "ExchRet", x |-> hid[cur[c]], c |-> c, r |-> "ok"])
     /\ UNCHANGED <<att, isNew, cur, ctxDone, writes, used, failOK, startedClosed, lzVars, health, uclosed, tVars, spurious>>
+    /\ FlipAll(c, {cur[c]})
 
 ExchFail(c) ==
     /\ pc[c] = "exch" /\ (health[cur[c]] \in {"stale", "dead"} \/ uclosed[cur[c]])
@@ -167,6 +186,7 @@ ExchFail(c) ==
                              ELSE pc' = [pc EXCEPT ![c] = "decide"] /\ res' = [res EXCEPT ![c] = "other"]
     /\ H([a |-> "ExchRet", x |-> hid[cur[c]], c |-> c, r |-> "err"])
     /\ UNCHANGED <<att, isNew, cur, ctxDone, chistVars, lzVars, uclosed, tVars, spurious>>
+    /\ FlipAll(c, {cur[c]})
 
 ExchCtx(c) ==
     /\ pc[c] = "exch" /\ ctxDone[c]
@@ -174,6 +194,7 @@ ExchCtx(c) ==
     /\ pc' = [pc EXCEPT ![c] = "decide"] /\ res' = [res EXCEPT ![c] = "ctx"]
     /\ H([a |-> "ExchRet", x |-> hid[cur[c]], c |-> c, r |-> "ctx"])
     /\ UNCHANGED <<att, isNew, cur, ctxDone, chistVars, lzVars, health, uclosed, tVars, spurious>>
+    /\ FlipAll(c, {cur[c]})
 
 CodeRetry(c) == ~isNew[c] /\ att[c] <= MaxRetry /\ ~ctxDone[c]
 MayRetry(c) == CASE Policy = "code" -> CodeRetry(c)
@@ -186,6 +207,7 @@ Retry(c) ==
     /\ pc' = [pc EXCEPT ![c] = "get"] /\ res' = [res EXCEPT ![c] = "na"]
     /\ NoH
     /\ UNCHANGED <<att, isNew, cur, ctxDone, chistVars, lzVars, uVars, tVars, spurious>>
+    /\ NoFlip
 
 Fail(c) ==
     /\ pc[c] = "decide" /\ MayFail(c)
@@ -193,6 +215,7 @@ Fail(c) ==
     /\ failOK' = [failOK EXCEPT ![c] = FailNowOK(c)]
     /\ NoH
     /\ UNCHANGED <<att, isNew, cur, ctxDone, res, writes, used, startedClosed, got, lzVars, uVars, tVars, spurious>>
+    /\ NoFlip
 
 ------------------------------------------------------------------------------
 \* dial goroutine of lazy conn x; h = the harness' number of this dial (design: h = x)
@@ -203,6 +226,7 @@ DialInvoke(x, h) ==
     /\ hid' = [hid EXCEPT ![x] = h]
     /\ H([a |-> "Dial", x |-> h])
     /\ UNCHANGED <<callVars, chistVars, lz, lclosed, early, wg, uVars, tVars, spurious>>
+    /\ NoFlip
 
 DialOk(x) ==
     /\ dpc[x] = "dialing"
@@ -212,30 +236,35 @@ DialOk(x) ==
          ELSE dpc' = [dpc EXCEPT ![x] = "done"] /\ lz' = [lz EXCEPT ![x] = "dialed"]
     /\ H([a |-> "DialRet", x |-> hid[x], ok |-> TRUE])
     /\ UNCHANGED <<callVars, chistVars, lclosed, early, wg, hid, inuse, uclosed, tVars, spurious>>
+    /\ FlipAll(0, {x})
 
 DialCloseLate(x) ==
     /\ dpc[x] = "closing" /\ dpc' = [dpc EXCEPT ![x] = "done"]
     /\ uclosed' = [uclosed EXCEPT ![x] = TRUE]
     /\ H([a |-> "UClose", x |-> hid[x]])
     /\ UNCHANGED <<callVars, chistVars, lz, lclosed, early, wg, hid, health, inuse, tVars, spurious>>
+    /\ NoFlip
 
 DialErr(x) ==
     /\ dpc[x] = "dialing" /\ dpc' = [dpc EXCEPT ![x] = "done"]
     /\ lz' = [lz EXCEPT ![x] = "failed"]
     /\ H([a |-> "DialRet", x |-> hid[x], ok |-> FALSE])
     /\ UNCHANGED <<callVars, chistVars, lclosed, early, wg, hid, uVars, tVars, spurious>>
+    /\ FlipAll(0, {x})
 
 ------------------------------------------------------------------------------
 TCloseStart ==
     /\ EnvTClose /\ cl = "idle" /\ cl' = "start"
     /\ H([a |-> "TClose"])
-    /\ UNCHANGED <<callVars, chistVars, lzVars, uVars, tclosed, tm, conns, nd, spurious>>
+    /\ UNCHANGED <<callVars, chistVars, lzVars, uVars, tclosed, tm, conns, nd, ndmax, spurious>>
+    /\ NoFlip
 
 TCloseLock ==
     /\ cl = "start" /\ tm = "free"
     /\ tclosed' = TRUE /\ tm' = "closer" /\ cl' = "locked"
     /\ NoH
-    /\ UNCHANGED <<callVars, chistVars, lzVars, uVars, conns, nd, spurious>>
+    /\ UNCHANGED <<callVars, chistVars, lzVars, uVars, conns, nd, ndmax, spurious>>
+    /\ NoFlip
 
 \* lazyDnsConn.Close
 TCloseOne(x) ==
@@ -245,15 +274,18 @@ TCloseOne(x) ==
          THEN lz' = [lz EXCEPT ![x] = "failed"] /\ UNCHANGED uclosed /\ NoH
          ELSE /\ UNCHANGED lz
               /\ IF lz[x] = "dialed" /\ "close_skips_dialed" \notin Dev
-                   THEN uclosed' = [uclosed EXCEPT ![x] = TRUE] /\ H([a |-> "UClose", x |-> hid[x]])
+                   THEN /\ uclosed' = [uclosed EXCEPT ![x] = TRUE]
+                        /\ IF health[x] # "dead" THEN H([a |-> "UClose", x |-> hid[x]]) ELSE NoH
                    ELSE UNCHANGED uclosed /\ NoH
     /\ UNCHANGED <<callVars, chistVars, early, wg, hid, dpc, health, inuse, tVars, spurious>>
+    /\ NoFlip
 
 TCloseEnd ==
     /\ cl = "locked" /\ \A x \in conns : lclosed[x]
     /\ tm' = "free" /\ cl' = "done"
     /\ H([a |-> "TCloseRet"])
-    /\ UNCHANGED <<callVars, chistVars, lzVars, uVars, tclosed, conns, nd, spurious>>
+    /\ UNCHANGED <<callVars, chistVars, lzVars, uVars, tclosed, conns, nd, ndmax, spurious>>
+    /\ NoFlip
 
 ------------------------------------------------------------------------------
 Kill(x, k) ==
@@ -262,12 +294,14 @@ Kill(x, k) ==
     /\ health' = [health EXCEPT ![x] = k]
     /\ H([a |-> "Kill", x |-> hid[x], k |-> k])
     /\ UNCHANGED <<callVars, chistVars, lzVars, inuse, uclosed, tVars, spurious>>
+    /\ NoFlip
 
 Cancel(c) ==
     /\ c \in CancelCalls /\ ~ctxDone[c] /\ pc[c] \notin {"na", "done"}
     /\ ctxDone' = [ctxDone EXCEPT ![c] = TRUE]
     /\ H([a |-> "Cancel", c |-> c])
     /\ UNCHANGED <<pc, att, isNew, cur, res, chistVars, lzVars, uVars, tVars, spurious>>
+    /\ FlipAll(0, ConnIds)
 
 ------------------------------------------------------------------------------
 CallProgress(c) ==
@@ -325,5 +359,5 @@ Released == (cl # "idle") ~> (cl = "done" /\ \A x \in ConnIds :
 Quiescent == (\A c \in Calls : pc[c] = "done") /\ (\A x \in ConnIds : dpc[x] \in {"none", "done"}) /\ cl \in {"idle", "done"}
 Emit == Quiescent => PrintT(<<"BEH", ToJson([steps |-> hist, res |-> res, att |-> att])>>)
 
-ViewNoHist == <<callVars, chistVars, lzVars, uVars, tVars, spurious>>
+ViewNoHist == <<callVars, chistVars, lzVars, uVars, tVars, flip, spurious>>
 =============================================================================
